@@ -331,3 +331,85 @@ Example C18_sim_lhs_no_alias_example :
   forallb (fun x => forallb (fun r => Bool.eqb (lv_assign (fun _ => false) v x r) (assign_cat (fun _ => false) (lv_wires v) x r))
                             [(0, 0); (0, 1); (1, 0); (1, 1)]%nat) [0; 1; 2; 3] = true.
 Proof. vm_compute. reflexivity. Qed.
+
+(* ------------------------------------------------------------------ additions after the coverage audit *)
+(* FFBuffer(direction, port, i_domain=, o_domain=): which domains the registers use (`x or "sync"`), and exactly when
+   the constructor raises ValueError (a domain given for a direction the buffer does not have) *)
+Theorem C18_ffbuffer_domains bd idom odom :
+  match ff_domains bd idom odom with
+  | Ok (i, o) => (bd = DOut -> idom = None) /\ (bd = DIn -> odom = None) /\
+                 i = (if dir_eqb bd DOut then None else Some (dom_default idom)) /\
+                 o = (if dir_eqb bd DIn then None else Some (dom_default odom))
+  | Err e => e = EValue /\ ((bd = DOut /\ idom <> None) \/ (bd = DIn /\ odom <> None))
+  end.
+Proof. exact (ff_domains_spec bd idom odom). Qed.
+Print Assumptions C18_ffbuffer_domains.
+
+(* on real ports an FFBuffer has the cells of a Buffer (buffer_cells) and exactly one register per existing direction,
+   in the resolved domain *)
+Theorem C18_ffbuffer_netlist_regs bd pd idom odom d : ffbuffer_init bd pd idom odom = Ok d ->
+  ff_regs d = ((if dir_eqb bd DIn then 0%nat else 1%nat, if dir_eqb bd DIn then None else Some (dom_default odom)),
+               (if dir_eqb bd DOut then 0%nat else 1%nat, if dir_eqb bd DOut then None else Some (dom_default idom))).
+Proof. exact (ff_regs_spec bd pd idom odom d). Qed.
+Print Assumptions C18_ffbuffer_netlist_regs.
+
+Example C18_ffbuffer_domains_example :
+  ffbuffer_init DBidir DBidir (Some DA) None = Ok (Some DA, Some DSync) /\
+  ffbuffer_init DOut DBidir (Some DA) None = Err EValue /\ ffbuffer_init DIn DOut None None = Err EValue.
+Proof. vm_compute. auto. Qed.
+
+(* several buffers in one design: buffers on ports without a common wire do not disturb each other (any order) *)
+Theorem C18_buffers_disjoint_independent p1 p2 bd1 bd2 o1 oe1 o2 oe2 st :
+  bd1 <> DIn -> bd2 <> DIn -> NoDup (p_refs p1) -> NoDup (p_refs p2) ->
+  (forall r, In r (p_refs p1) -> ~ In r (p_refs p2)) ->
+  let st12 := fst (buffer_comb bd2 p2 o2 oe2 (fst (buffer_comb bd1 p1 o1 oe1 st))) in
+  let st21 := fst (buffer_comb bd1 p1 o1 oe1 (fst (buffer_comb bd2 p2 o2 oe2 st))) in
+  (forall k r, nth_error (p_refs p1) k = Some r ->
+     s_o st12 r = xorb (Z.testbit o1 (Z.of_nat k)) (nthb (p_inv p1) k) /\ s_oe st12 r = Z.odd oe1 /\
+     s_o st21 r = s_o st12 r /\ s_oe st21 r = s_oe st12 r) /\
+  (forall k r, nth_error (p_refs p2) k = Some r ->
+     s_o st12 r = xorb (Z.testbit o2 (Z.of_nat k)) (nthb (p_inv p2) k) /\ s_oe st12 r = Z.odd oe2 /\
+     s_o st21 r = s_o st12 r /\ s_oe st21 r = s_oe st12 r).
+Proof. exact (buffers_disjoint p1 p2 bd1 bd2 o1 oe1 o2 oe2 st). Qed.
+Print Assumptions C18_buffers_disjoint_independent.
+
+(* The simulator's lowering of an assignment target (lv_assign) IS the per-bit assignment, for every Value tree in
+   which no Slice is taken of an operand naming a signal bit twice, every state and every value.  Together with
+   C18_sim_lhs_alias_refuted this delimits finding C18-SIM-LHS-ALIAS exactly. *)
+Theorem C18_sim_lowering_is_per_bit v st x r : slice_safe v ->
+  lv_assign st v x r = assign_cat st (lv_wires v) x r.
+Proof. intros H. apply (lv_assign_flat v H st st x). intros q; reflexivity. Qed.
+Print Assumptions C18_sim_lowering_is_per_bit.
+
+(* For every port expression over simulation ports: the Value tree that the port algebra builds names exactly the
+   port's wires, and if it is slice_safe the Buffer as the simulator executes it (buffer_comb_lv) is the Buffer of
+   C18_buffer_out_spec / _in_spec / _bidir_loopback (buffer_comb), wire by wire. *)
+Theorem C18_sim_buffer_is_per_bit bds env e p bd o oe st :
+  Forall is_sim bds -> mk_env bds = Ok env -> peval env e = Ok p ->
+  lv_wires (peval_lv env e) = p_refs p /\
+  (slice_safe (peval_lv env e) ->
+   let a := buffer_comb_lv bd p (peval_lv env e) o oe st in
+   let b := buffer_comb bd p o oe st in
+   (forall r, s_i (fst a) r = s_i (fst b) r) /\ (forall r, s_o (fst a) r = s_o (fst b) r) /\
+   (forall r, s_oe (fst a) r = s_oe (fst b) r) /\ snd a = snd b).
+Proof.
+  intros Hs He Hp.
+  assert (Hw : lv_wires (peval_lv env e) = p_refs p).
+  { apply peval_lv_wires; auto; [eapply mk_env_sim_env; eauto|eapply mk_env_from_wf; eauto]. }
+  split; [exact Hw|]. intros Hsafe. exact (buffer_comb_lv_flat bd p (peval_lv env e) o oe st Hsafe Hw).
+Qed.
+Print Assumptions C18_sim_buffer_is_per_bit.
+
+Example C18_sim_buffer_example :
+  let bds := [BSim DBidir 3 (InvList [true; false; true]); BSim DBidir 2 InvDefault] in
+  let e := PSlice (PAdd (PBase 0) (PInv (PBase 1))) (Sl (Some 1) (Some 4) None) in
+  Forall is_sim bds /\ (exists env p, mk_env bds = Ok env /\ peval env e = Ok p /\ slice_safe (peval_lv env e)) /\
+  (* and an expression that is not slice_safe: ((~p) + p[0:1])[-3] *)
+  ~ slice_safe (peval_lv [ex_p] (PIdx (PAdd (PInv (PBase 0)) (PSlice (PBase 0) (Sl (Some 0) (Some 1) None))) (-3))).
+Proof.
+  cbn zeta. split; [repeat constructor|]. split.
+  - eexists. eexists. split; [reflexivity|]. split; [vm_compute; reflexivity|].
+    vm_compute. repeat constructor; cbn; intuition congruence.
+  - vm_compute. intros H. inversion H as [|? ? Hx Hr]; subst. inversion Hr as [|? ? Hy Hr2]; subst.
+    inversion Hr2 as [|? ? Hz Hr3]; subst. apply Hx. cbn. auto.
+Qed.
